@@ -67,7 +67,6 @@ Arguments guide {A} {_}.
 
 Record atom_laws {A : Type} (O : atom_ops A) : Prop := mk_atom_laws {
   aeqb_eq : forall a b, aeqb a b = true <-> a = b;
-  raw_num : forall z, raw (num z) = true;
   as_num_num : forall z, as_num (num z) = Some z
 }.
 
